@@ -352,6 +352,9 @@ def check(an: Analysis) -> None:
         if lab is None and len(c.args) > 1:
             lab = c.args[1]
         lab = Deps(prog, tr).inline(lab) if lab is not None else None
+        from ..kinds import added_optional_params_env, reduce_ifexp
+
+        lab = reduce_ifexp(lab, added_optional_params_env(tr, {"function"})) if lab is not None else None
         callee_fn = prog.functions.get(an.callee(tr, c) or "")
         if lab is None and callee_fn is not None and "label" not in callee_fn.param_names() and c.args and is_name(c.args[0], "function"):
             continue  # the wrapper factory derives the name from the function itself (checked at its ctx.scope call)
